@@ -90,7 +90,7 @@ def judge_next(cal, exc2, rows_before, nb_before):
     return []
 
 
-def run_fault(cfg, source, k, n, twin, prefix=None, folder=False):
+def run_fault(cfg, source, k, n, twin, prefix=None, folder=False, sleep_at=None):
     """One fault position (and, for RL, one schedule). Returns (violations, controller or None, fired)."""
     rl = "scheduler" in cfg
     models.reset(fault_at=k if source == "model" else None)
@@ -128,7 +128,9 @@ def run_fault(cfg, source, k, n, twin, prefix=None, folder=False):
 
         with rec:
             if rl:
-                ctl, _, exc, leaked = rh.controlled(go, prefix or [])
+                ctl, _, exc, leaked = rh.controlled(go, prefix or [], sleep_at=sleep_at)
+                if ctl.aborted == "sleep-blocked":
+                    return [], ctl, True
                 if exc is not None:
                     if isinstance(exc, rh.vt.Abort):
                         return [("deadlock" if "deadlock" in str(exc) else "livelock-or-horizon", f"the execution ended in {exc} (fault {source}#{k})")], ctl, True
@@ -153,7 +155,7 @@ def early_stop_cell(cell):
     res = {"evaluations": 0, "nontrivial": 0, "states": 0, "transitions": 0, "traces": 0, "stats": {}, "outcomes": set(), "violations": [], "samples": []}
     cfg = dict(cell["cfg"], convergence_precision=0, model="const2", real_const=0.25)  # the loss is exactly 0 from the first batch on
 
-    def one(prefix):
+    def one(prefix, sleep_at=None):
         models.reset()
         out = {}
 
@@ -171,10 +173,10 @@ def early_stop_cell(cell):
             return cal
 
         rh.vt.reset_registry()
-        ctl, _, exc, leaked = rh.controlled(go, prefix)
+        ctl, _, exc, leaked = rh.controlled(go, prefix, sleep_at=sleep_at)
         return ctl, (out, exc, leaked)
 
-    for prefix, ctl, (out, exc, leaked) in ex.explore(one, bound=cell.get("bound", 1), max_execs=600):
+    for prefix, ctl, (out, exc, leaked) in ex.explore_por(one, max_execs=3000):
         res["evaluations"] += 1
         res["traces"] += 1
         res["transitions"] += ctl.n_points
@@ -205,8 +207,10 @@ def run_cell(cell):
     cfg, n, rl = cell["cfg"], cell["n"], "scheduler" in cell["cfg"]
     twin = fault_free(cfg, n, rl)
     for source, k in cell["faults"]:
+        res["stats"]["fault_positions_tried"] = res["stats"].get("fault_positions_tried", 0) + 1
         if rl:
-            runs = ex.explore(lambda p: (lambda r: (r[1], r))(run_fault(cfg, source, k, n, twin, prefix=p)), bound=cell.get("bound", 1), max_execs=400)
+            # every interleaving of the calibration thread and the agent thread, modulo commutation of independent steps
+            runs = ex.explore_por(lambda p, sl: (lambda r: (r[1], r))(run_fault(cfg, source, k, n, twin, prefix=p, sleep_at=sl)), max_execs=2000)
             for prefix, ctl, r in runs:
                 vs, _, fired = r
                 if not fired:
@@ -265,14 +269,14 @@ def main(ctx):
     for i in range(0, len(allf), 2):
         cells.append({"cfg": base_cfg("rl", S, ens), "n": n, "faults": allf[i:i + 2], "bound": 1 if ctx.quick else 2})
     cells.append({"kind": "early-stop", "cfg": base_cfg("rl", S, 1), "n": 6, "bound": 1 if ctx.quick else 2})
-    ctx.bounds = {"batches": n, "ensemble": ens, "early_stop": "RL scheduler left through the convergence break (no fault), every schedule with <= 1 (2) preemptions", "lineup": [s["cls"] for s in LINEUP], "fault_sources": ["model", "loss", "sampler"],
-                  "fault_positions": len(allf), "rr": "with and without saving folder", "rl": f"every schedule with <= {1 if ctx.quick else 2} preemption(s), capped at 400 per fault position"}
+    ctx.bounds = {"batches": n, "ensemble": ens, "early_stop": "RL scheduler left through the convergence break (no fault), every interleaving modulo independence", "lineup": [s["cls"] for s in LINEUP], "fault_sources": ["model", "loss", "sampler"],
+                  "fault_positions": len(allf), "rr": "with and without saving folder", "rl": "every interleaving modulo commutation of independent steps (sleep sets), capped at 2000 per fault position"}
     ctx.rule = "one execution per (scheduler, folder, fault source, invocation index[, schedule]); every one injects exactly one fault"
     ctx.assumptions = ["n_jobs=1 (the fault position must be owned)", "RL + saving folder is not reachable (C04 known finding)"]
     try:
         ctx.pmap("vf.checks.c11:run_cell", cells)
     except rh.HarnessBroken as e:
         raise HarnessError(str(e)) from e
-    ctx.require(ctx.evaluations > 100, "too few fault positions")
+    ctx.require(ctx.stats.get("fault_positions_tried", 0) >= 3 * len(allf) and ctx.evaluations >= 2 * len(allf), "too few fault positions")
     ctx.require(any(o[0] == "rl" for o in ctx.outcomes) and any(o[0] == "rr" for o in ctx.outcomes), "one scheduler kind was not exercised")
     ctx.require(("early-stop", True) in ctx.outcomes, "the convergence break was never taken under the RL scheduler")
